@@ -283,7 +283,7 @@ class store_catalogue:
     other target position untouched."""
     bounded_only = True
     params = {"entry": "const", "tier": "const", "mode": "const"}
-    scope = "catalogue entries with known chunks; NumPy targets; modes: whole / offset region / two sources / compute=False / return_stored"
+    scope = "catalogue entries with known chunks; NumPy targets; modes: whole / offset region / strided offset region / two sources / compute=False / return_stored"
 
     def call(fn, entry, tier, mode):
         import numpy as np
@@ -298,6 +298,12 @@ class store_catalogue:
             big = tuple(n + 3 for n in shp)
             tgt = np.full(big, -7.0)
             reg = tuple(slice(1, 1 + n) for n in shp)
+            fn(x, tgt, regions=reg)
+            return [(tgt, reg, expected)]
+        if mode == "strided":
+            big = tuple(2 * n + 3 for n in shp)
+            tgt = np.full(big, -7.0)
+            reg = tuple(slice(1, 1 + 2 * n, 2) for n in shp)
             fn(x, tgt, regions=reg)
             return [(tgt, reg, expected)]
         if mode == "two":
@@ -338,7 +344,7 @@ class store_catalogue:
         return {"written-region-equals-source": ok_written, "outside-region-untouched": ok_untouched, "mode-specific": ok_extra}
 
     def domain(tier, rng):
-        modes = ["whole", "region"] if tier == "quick" else ["whole", "region", "two", "delayed", "return_stored"]
+        modes = ["whole", "region", "strided"] if tier == "quick" else ["whole", "region", "strided", "two", "delayed", "return_stored"]
         names = list(entries(tier, 0))
         for i, name in enumerate(names):
             for m in modes:
@@ -512,6 +518,7 @@ class unknown_sizes_refused:
             "take": (lambda a: a[[0]], lambda w: w[[0]]),
             "plus": (lambda a: a + 1, lambda w: w + 1),
             "sum": (lambda a: a.sum(), lambda w: w.sum()),
+            "plus-known": (lambda a: a + x, lambda w: w + d),
         }
         f, g = ops[op]
         try:
@@ -522,7 +529,7 @@ class unknown_sizes_refused:
             return ("index-error", str(e)[:80], None)
         try:
             w = g(want)
-        except IndexError:
+        except (IndexError, ValueError):
             return ("numpy-refuses", None, got)
         return ("computed", got, np.asarray(w))
 
@@ -531,6 +538,10 @@ class unknown_sizes_refused:
 
     def ensures(result, n, chunks, op):
         kind, a, b = result
+        if op == "plus-known":
+            # elementwise op between an unknown-size array and an operand of known length: NumPy's result, or a refusal
+            ok = kind in ("refused", "index-error") or (kind == "computed" and _same(a, b))
+            return {"elemwise-unknown-with-known-operand": ok}
         if kind == "computed":
             return {"result-equals-numpy": _same(a, b)}
         return {"refused-not-wrong": kind in ("refused", "index-error")}
@@ -538,7 +549,7 @@ class unknown_sizes_refused:
     def domain(tier, rng):
         for n in range(1, 8):
             for ch in cat.layouts_1d(n, "quick"):
-                for op in ("full", "slice", "int", "rev", "rechunk2", "rechunk-1", "take", "plus", "sum"):
+                for op in ("full", "slice", "int", "rev", "rechunk2", "rechunk-1", "take", "plus", "sum", "plus-known"):
                     yield {"n": n, "chunks": ch, "op": op}
 
 
@@ -663,6 +674,12 @@ class rewrites_preserve_values:
         import numpy as np
         expected, phases, pairs, meta = result
         r = {}
+        if expected is None:
+            # no independent NumPy reference: the raw (unoptimised) form is the reference for the other phases
+            expected = phases["raw"]
+            r["raw-form-is-computable"] = not isinstance(expected, Exception)
+            if isinstance(expected, Exception):
+                return r
         for name, v in phases.items():
             r[f"phase-{name}-equals-numpy"] = (not isinstance(v, Exception)) and _same(v, expected)
         bad = [rule for rule, b, a, err in pairs if err is None and not (_same(a, b) and np.asarray(a).dtype == np.asarray(b).dtype)]
@@ -750,3 +767,555 @@ class take_lists:
                 for idx in short:
                     for form in ("list", "vindex", "col"):
                         yield {"n": n, "chunks": ch, "index": idx, "form": form}
+
+
+# ---------------------------------------------------------------------------
+# C14: rechunk
+# ---------------------------------------------------------------------------
+@contract("dask_array/_rechunk.py::rechunk", spec="specs", props=["C14"])
+class rechunk_specs:
+    """x.rechunk(spec) has the chunks that normalising the spec against x's shape and chunks gives, and the same values"""
+    bounded_only = True
+    params = {"shape": "const", "chunks": "const", "spec": "const", "kwargs": "const", "post": "const"}
+    scope = ("1-D (12) and 2-D (5x6) sources with 4 layouts each; specs: ints, tuples, dicts, -1, None, 'auto', byte strings, "
+             "explicit tuples, balance=True, block_size_limit; followed by nothing / a slice / a transpose / +1")
+
+    def real():
+        return lambda x, spec, **kw: x.rechunk(spec, **kw)
+
+    def call(fn, shape, chunks, spec, kwargs, post):
+        import numpy as np
+        import dask_array as da
+        d = np.arange(int(np.prod(shape)), dtype="f8").reshape(shape)
+        x = da.from_array(d, chunks=chunks)
+        y = fn(x, spec, **kwargs)
+        want = d
+        z = y
+        if post == "slice":
+            z, want = y[1:], d[1:]
+        elif post == "T":
+            z, want = y.T, d.T
+        elif post == "plus":
+            z, want = y + 1, d + 1
+        return x.chunks, y.chunks, np.asarray(z.compute()), want
+
+    def requires(shape, chunks, spec, kwargs, post):
+        return True
+
+    def ensures(result, shape, chunks, spec, kwargs, post):
+        import numpy as np
+        from dask_array._core_utils import normalize_chunks
+        old, new, got, want = result
+        r = {"values-unchanged": _same(got, want),
+             "valid-layout": all(len(ax) >= 1 and all(isinstance(c, int) and c >= 0 for c in ax) and sum(ax) == n
+                                 for ax, n in zip(new, shape)) and len(new) == len(shape)}
+        if not kwargs.get("balance"):
+            s = spec
+            if isinstance(s, dict):
+                s = tuple(s.get(i, None) if s.get(i, None) is not None else old[i] for i in range(len(shape)))
+                s = tuple(old[i] if (i not in spec and (i - len(shape)) not in spec) else
+                          (spec.get(i, spec.get(i - len(shape))) if spec.get(i, spec.get(i - len(shape))) is not None else old[i])
+                          for i in range(len(shape)))
+            elif isinstance(s, (tuple, list)):
+                s = tuple(c if c is not None else o for c, o in zip(s, old))
+            want_chunks = normalize_chunks(s, shape, limit=kwargs.get("block_size_limit"), dtype=np.dtype("f8"), previous_chunks=old)
+            r["requested-chunks"] = chunks_equal(new, want_chunks)
+        return r
+
+    def domain(tier, rng):
+        one = [((12,), c) for c in [((4, 4, 4),), ((5, 7),), ((1, 2, 9),), ((12,),)]]
+        two = [((5, 6), c) for c in [((2, 3), (3, 3)), ((5,), (2, 2, 2)), ((1, 4), (6,)), ((2, 2, 1), (1, 5))]]
+        specs1 = [5, (5,), -1, {0: 3}, {-1: 4}, "auto", "32B", ((2, 10),), (None,), 1, 12, 100]
+        specs2 = [2, (2, 3), (-1, 2), (None, 3), {1: 2}, {0: -1}, "auto", "64B", ((5,), (1, 5)), (1, -1), ("auto", 2)]
+        posts = ["none", "slice"] if tier == "quick" else ["none", "slice", "T", "plus"]
+        for (shape, ch), specs in [(x, specs1) for x in one] + [(x, specs2) for x in two]:
+            for spec in specs:
+                if spec is None and len(shape) > 1:
+                    continue
+                for post in posts:
+                    yield {"shape": shape, "chunks": ch, "spec": spec, "kwargs": {}, "post": post}
+            yield {"shape": shape, "chunks": ch, "spec": 5 if len(shape) == 1 else (2, 4), "kwargs": {"balance": True}, "post": "none"}
+            yield {"shape": shape, "chunks": ch, "spec": "auto", "kwargs": {"block_size_limit": 40}, "post": "none"}
+
+
+# ---------------------------------------------------------------------------
+# C18: reductions
+# ---------------------------------------------------------------------------
+@contract("dask_array/reductions/_reduction.py::reduction", spec="numpy", props=["C18"])
+class reductions_numpy:
+    """every reduction over any axes, keepdims and split_every gives NumPy's result whatever the chunking and fan-in"""
+    bounded_only = True
+    params = {"func": "const", "chunks": "const", "axis": "const", "keepdims": "const", "split_every": "const"}
+    scope = ("4x6 float data with NaNs for the nan-variants; 16 reducers; axes None/0/1/(0,1); keepdims; split_every None/2/3/{0:2,1:3}; "
+             "layouts from single block to 1x1 blocks")
+
+    def real():
+        return lambda x, func, **kw: getattr(x, func)(**kw)
+
+    def call(fn, func, chunks, axis, keepdims, split_every):
+        import numpy as np
+        import dask_array as da
+        d = (np.arange(24.0).reshape(4, 6) * 7 % 11) - 3
+        if func.startswith("nan"):
+            d = d.copy()
+            d[1, 2] = np.nan
+            d[3, 0] = np.nan
+        x = da.from_array(d, chunks=chunks)
+        kw = {"axis": axis, "keepdims": keepdims}
+        dfun = getattr(da, func)
+        nfun = getattr(np, func)
+        if split_every is not None:
+            got = dfun(x, split_every=split_every, **kw)
+        else:
+            got = dfun(x, **kw)
+        return np.asarray(got.compute()), np.asarray(nfun(d, **kw)), got.numblocks
+
+    def requires(func, chunks, axis, keepdims, split_every):
+        if func in ("argmin", "argmax", "nanargmin", "nanargmax") and isinstance(axis, tuple):
+            return False
+        return True
+
+    def ensures(result, func, chunks, axis, keepdims, split_every):
+        got, want, nb = result
+        return {"equals-numpy": _same(got, want)}
+
+    def domain(tier, rng):
+        funcs = ["sum", "prod", "min", "max", "any", "all", "mean", "var", "std", "nansum", "nanmean", "nanmax", "nanvar",
+                 "argmin", "argmax", "nanargmax"]
+        layouts = [((4,), (6,)), ((2, 2), (3, 3)), ((1, 1, 1, 1), (1,) * 6), ((3, 1), (1, 5)), ((1, 3), (2, 2, 2))]
+        axes = [None, 0, 1, (0, 1)]
+        ses = [None, 2, 3, {0: 2, 1: 3}]
+        combos = [(f, l, a, k, s) for f in funcs for l in layouts for a in axes for k in (False, True) for s in ses]
+        if tier == "quick":
+            combos = rng.sample(combos, 500)
+        for f, l, a, k, s in combos:
+            yield {"func": f, "chunks": l, "axis": a, "keepdims": k, "split_every": s}
+
+
+@contract("dask_array/reductions/_reduction.py::_build_tree_reduce_expr", spec="depth", props=["C18"])
+class tree_depth:
+    """the tree of partial reductions always reaches one block along every reduced axis (the depth is computed with a float
+    logarithm: bounded check of k**ceil(log(n, k)) >= n, and of the built expression's block counts)"""
+    bounded_only = True
+    params = {"n": "const", "k": "const"}
+    scope = "n <= 2000 blocks exhaustively for 2 <= k <= 16 (quick) / n <= 200000 (thorough); built expressions for n <= 40"
+
+    def real():
+        import math
+        return lambda n, k: int(max(1, math.ceil(math.log(n, k)))) if n > 1 else 1
+
+    def call(fn, n, k):
+        depth = fn(n, k)
+        nb = None
+        if n <= 40:
+            import numpy as np
+            import dask_array as da
+            x = da.from_array(np.arange(n), chunks=1)
+            r = x.sum(split_every=k)
+            nb = (r.numblocks, int(r.compute()), int(np.arange(n).sum()))
+        return depth, nb
+
+    def requires(n, k):
+        return n >= 1 and k >= 2
+
+    def ensures(result, n, k):
+        depth, nb = result
+        r = {"depth-suffices": k ** depth >= n}
+        if nb is not None:
+            r["single-block-and-value"] = nb[0] == () and nb[1] == nb[2]
+        return r
+
+    def domain(tier, rng):
+        top = 2000 if tier == "quick" else 200000
+        for k in range(2, 17):
+            for n in range(1, top + 1):
+                if n <= 40 or n % 7 == 0 or any(abs(n - k ** e) <= 1 for e in range(1, 18)):
+                    yield {"n": n, "k": k}
+
+
+# ---------------------------------------------------------------------------
+# C19: windowed and scan operations
+# ---------------------------------------------------------------------------
+@contract("dask_array/_overlap.py::sliding_window_view", spec="numpy", props=["C19", "C03"])
+class windows_numpy:
+    """sliding_window_view (alone and under reductions, windows larger than a block), map_overlap with every boundary kind,
+    diff, cumulative scans (sequential and blelloch) compute the NumPy definition for every chunking"""
+    bounded_only = True
+    params = {"op": "const", "chunks": "const", "w": "const"}
+    scope = "1-D data of length 9 with all chunkings of <= 4 blocks (quick: sampled), windows 1..6, 2-D 4x5 for axis variants"
+
+    def real():
+        return lambda *a: None
+
+    def call(fn, op, chunks, w):
+        import numpy as np
+        import dask_array as da
+        swv = np.lib.stride_tricks.sliding_window_view
+        d = (np.arange(9.0) * 5 % 7) + 1
+        x = da.from_array(d, chunks=(chunks,))
+        if op == "swv":
+            return np.asarray(da.sliding_window_view(x, w).compute()), swv(d, w)
+        if op.startswith("swv-"):
+            red = op[4:]
+            y = getattr(da.sliding_window_view(x, w), red)(axis=-1)
+            return np.asarray(y.compute()), getattr(swv(d, w), red)(axis=-1), y.chunks
+        if op.startswith("overlap-"):
+            b = op[8:]
+            bnd = {"none": "none", "reflect": "reflect", "periodic": "periodic", "nearest": "nearest", "const": 0.0}[b]
+            depth = min(w, 3)
+            f = lambda blk: blk * 2 + 1
+            y = x.map_overlap(f, depth=depth, boundary=bnd, dtype="f8")
+            return np.asarray(y.compute()), d * 2 + 1
+        if op == "diff":
+            return np.asarray(da.diff(x, n=min(w, 3)).compute()), np.diff(d, n=min(w, 3))
+        if op in ("cumsum", "cumprod"):
+            for method in ("sequential", "blelloch"):
+                got = np.asarray(getattr(da, op)(x, axis=0, method=method).compute())
+                if not _same(got, getattr(np, op)(d)):
+                    return got, getattr(np, op)(d)
+            return got, getattr(np, op)(d)
+        if op == "gradient":
+            if min(chunks) < 2:
+                return None, None
+            g = da.gradient(x)
+            g = g[0] if isinstance(g, (list, tuple)) else g
+            return np.asarray(g.compute()), np.gradient(d)
+        raise ValueError(op)
+
+    def requires(op, chunks, w):
+        return not (op.startswith("swv") and w > 9)
+
+    def ensures(result, op, chunks, w):
+        if result[0] is None:
+            return {}
+        r = {"equals-numpy": _same(result[0], result[1])}
+        if len(result) > 2:
+            r["advertised-chunks-sum"] = all(sum(ax) == n for ax, n in zip(result[2], result[1].shape))
+        return r
+
+    def domain(tier, rng):
+        lays = [c for c in cat.compositions(9) if len(c) <= 4]
+        if tier == "quick":
+            lays = rng.sample(lays, 14) + [(9,), (3, 3, 3), (1, 1, 7), (2, 2, 2, 3)]
+        ops = ["swv", "swv-sum", "swv-max", "swv-mean", "swv-min", "overlap-none", "overlap-reflect", "overlap-periodic",
+               "overlap-nearest", "overlap-const", "diff", "cumsum", "cumprod", "gradient"]
+        for c in lays:
+            for op in ops:
+                ws = range(1, 7) if op.startswith("swv") else ((1, 2) if op.startswith("overlap") or op == "diff" else (1,))
+                for w in ws:
+                    yield {"op": op, "chunks": c, "w": w}
+
+
+# ---------------------------------------------------------------------------
+# C17: chunk unification
+# ---------------------------------------------------------------------------
+@contract("dask_array/_expr.py::unify_chunks_expr", spec="pairs", props=["C17"])
+class unify_chunks_pairs:
+    """operands with different chunkings are brought to one common layout per index (broadcast axes excepted); under
+    'refine' every unified layout only splits each operand's blocks; under any policy no operand's block grows beyond the
+    larger of array.unify-chunks-limit and its own largest block; values are unchanged"""
+    bounded_only = True
+    params = {"la": "const", "lb": "const", "policy": "const", "limit": "const", "mode": "const"}
+    scope = ("pairs of 1-D layouts of extent 12 (all pairs of 9 layouts incl. largest-chunk-not-first ones) and 2-D (6x4) pairs, "
+             "policies auto/refine/coarse, limits 16 B .. 1 MiB, plain and broadcasting operands")
+
+    def real():
+        from dask_array._expr import unify_chunks_expr
+        return unify_chunks_expr
+
+    def call(fn, la, lb, policy, limit, mode):
+        import warnings
+        import numpy as np
+        import dask
+        import dask_array as da
+        if mode == "1d":
+            d = np.arange(12.0)
+            x = da.from_array(d, chunks=(la,))
+            y = da.from_array(d * 2, chunks=(lb,))
+            inds = ("i", "i")
+            want = d + d * 2
+        elif mode == "2d":
+            d = np.arange(24.0).reshape(6, 4)
+            x = da.from_array(d, chunks=(la, (4,)))
+            y = da.from_array(d * 2, chunks=(lb, (2, 2)))
+            inds = ("ij", "ij")
+            want = d + d * 2
+        else:  # broadcasting: y has a length-1 axis
+            d = np.arange(24.0).reshape(6, 4)
+            x = da.from_array(d, chunks=(la, (4,)))
+            y = da.from_array(d[:, :1] * 2, chunks=(lb, (1,)))
+            inds = ("ij", "ij")
+            want = d + d[:, :1] * 2
+        with dask.config.set({"array.unify-chunks-policy": policy, "array.unify-chunks-limit": limit}):
+            with warnings.catch_warnings():
+                warnings.simplefilter("ignore")
+                chunkss, arrays, changed = fn(x.expr, tuple(inds[0]), y.expr, tuple(inds[1]), warn=False)
+                got = np.asarray((x + y).compute())
+        return [(a.chunks, o.chunks, o.shape, o.dtype.itemsize) for a, o in zip(arrays, (x, y))], dict(chunkss), got, want
+
+    def requires(la, lb, policy, limit, mode):
+        return True
+
+    def ensures(result, la, lb, policy, limit, mode):
+        import math
+        ops, chunkss, got, want = result
+
+        def bounds(t):
+            out, acc = set(), 0
+            for c in t:
+                acc += c
+                out.add(acc)
+            return out
+        common = True
+        only_splits = True
+        no_growth = True
+        for new, old, shape, itemsize in ops:
+            for ax, (n, o) in enumerate(zip(new, old)):
+                if shape[ax] > 1 and tuple(n) != tuple(chunkss["ij"[ax] if len(shape) == 2 else "i"]):
+                    common = False
+                if not bounds(o) <= bounds(n):
+                    only_splits = False
+            big_new = itemsize * math.prod(max(c) for c in new)
+            big_old = itemsize * math.prod(max(c) for c in old)
+            if big_new > max(limit, big_old):
+                no_growth = False
+        r = {"one-common-layout-per-index": common, "no-block-grows-beyond-limit": no_growth, "values": _same(got, want)}
+        if policy == "refine":
+            r["refine-only-splits"] = only_splits
+        return r
+
+    def domain(tier, rng):
+        l1 = [(12,), (6, 6), (4, 4, 4), (3, 9), (9, 3), (1, 11), (2, 2, 8), (8, 2, 2), (1, 5, 6)]
+        l2 = [(6,), (3, 3), (1, 5), (5, 1), (2, 4), (1, 1, 4)]
+        limits = [16, 48, 64, 1 << 20]
+        for pol in ("auto", "refine", "coarse"):
+            for lim in limits:
+                for a in l1:
+                    for b in l1:
+                        yield {"la": a, "lb": b, "policy": pol, "limit": lim, "mode": "1d"}
+                for a in l2:
+                    for b in l2:
+                        yield {"la": a, "lb": b, "policy": pol, "limit": lim, "mode": "2d"}
+                        if tier != "quick" or lim in (48, 1 << 20):
+                            yield {"la": a, "lb": b, "policy": pol, "limit": lim, "mode": "bcast"}
+
+
+# ---------------------------------------------------------------------------
+# C04 / C11: in-place operations keep keys, names and other collections consistent
+# ---------------------------------------------------------------------------
+@contract("dask_array/_collection.py::Array._replace_expr", spec="sequences", props=["C04", "C11"])
+class inplace_sequences:
+    """after x[index] = value / out=x / x.compute_chunk_sizes(): x's advertised keys are the grid of its (new) name and are
+    defined by its graph; x computes NumPy's result of the same assignment; collections derived earlier keep their values;
+    the source array is unmodified"""
+    bounded_only = True
+    params = {"chunks": "const", "op": "const", "touch": "const"}
+    scope = "1-D length 12 / 2-D 3x4 arrays, 4 layouts; ops: setitem (int, slice, reversed slice, mask, masked value), out=, compute_chunk_sizes; with and without reading keys/to_delayed before the operation"
+
+    def real():
+        return lambda x: x
+
+    def call(fn, chunks, op, touch):
+        import numpy as np
+        import dask
+        import dask_array as da
+        from dask.core import flatten
+        a = np.arange(12.0) * 3
+        src = a.copy()
+        x = da.from_array(a, chunks=(chunks,))
+        derived = {"plus": x + 1, "slice": x[2:9], "rev": x[::-1]}
+        derived_want = {"plus": src + 1, "slice": src[2:9], "rev": src[::-1]}
+        if touch:
+            x.__dask_keys__()
+            x.to_delayed()
+        want = src.copy()
+        if op == "set-int":
+            x[3] = -1.0
+            want[3] = -1.0
+        elif op == "set-slice":
+            x[2:7] = np.arange(5.0)
+            want[2:7] = np.arange(5.0)
+        elif op == "set-rev":
+            x[9:1:-2] = np.arange(4.0) + 100
+            want[9:1:-2] = np.arange(4.0) + 100
+        elif op == "set-empty-rev":
+            x[-20::-1] = -5.0
+            want[-20::-1] = -5.0
+        elif op == "set-mask":
+            x[x > 20] = 0.0
+            want[want > 20] = 0.0
+        elif op == "set-masked":
+            x[1] = np.ma.masked
+            want = np.ma.array(want)
+            want[1] = np.ma.masked
+        elif op == "out":
+            da.add(x, 1, out=x)
+            want = want + 1
+        elif op == "ccs":
+            x = x[x > 6]
+            derived = {"plus": x + 1}
+            derived_want = {"plus": src[src > 6] + 1}
+            if touch:
+                x.__dask_keys__()
+            x.compute_chunk_sizes()
+            want = src[src > 6]
+        keys = list(flatten(x.__dask_keys__()))
+        g = x.__dask_graph__()
+        got = np.ma.asarray(x.compute()) if op == "set-masked" else np.asarray(x.compute())
+        dl = x.to_delayed()
+        dvals = np.concatenate([np.atleast_1d(np.ma.filled(v, -99.0)) for v in dask.compute(*list(np.ravel(dl)))])
+        dgot = {k: np.asarray(v.compute()) for k, v in derived.items()}
+        return {"keys": keys, "name": x.name, "defined": all(k in g for k in keys), "got": got, "want": want,
+                "delayed": dvals, "derived": dgot, "derived_want": derived_want, "source_same": bool((a == src).all())}
+
+    def requires(chunks, op, touch):
+        return True
+
+    def ensures(result, chunks, op, touch):
+        import numpy as np
+        r = result
+        got, want = r["got"], r["want"]
+        vals = _same(np.ma.filled(got, -99.0), np.ma.filled(want, -99.0))
+        return {
+            "keys-carry-current-name": all(k[0] == r["name"] for k in r["keys"]),
+            "graph-defines-advertised-keys": r["defined"],
+            "values-equal-numpy-assignment": vals,
+            "to_delayed-agrees": _same(r["delayed"], np.ma.filled(want, -99.0)),
+            "earlier-derived-collections-unchanged": all(_same(r["derived"][k], r["derived_want"][k]) for k in r["derived"]),
+            "source-unmodified": r["source_same"],
+        }
+
+    def domain(tier, rng):
+        for ch in [(12,), (4, 4, 4), (5, 7), (1, 2, 9)]:
+            for op in ("set-int", "set-slice", "set-rev", "set-empty-rev", "set-mask", "set-masked", "out", "ccs"):
+                for touch in (False, True):
+                    yield {"chunks": ch, "op": op, "touch": touch}
+
+
+@contract("dask_array/io/_store.py::store", spec="identical-targets", props=["C25"])
+class store_identical_targets:
+    """storing the same source into several distinct targets writes every target (known finding F8: distinct NumPy targets
+    with identical initial content collapse into one store task, because targets are tokenized by content)"""
+    bounded_only = True
+    params = {"chunks": "const", "same_content": "const"}
+    scope = "1-D length 10 source stored twice into two distinct NumPy targets, with equal and with different initial content"
+
+    def call(fn, chunks, same_content):
+        import numpy as np
+        import dask_array as da
+        a = da.from_array(np.arange(10.0), chunks=(chunks,))
+        t1 = np.zeros(10)
+        t2 = np.zeros(10) if same_content else np.ones(10)
+        fn([a, a], [t1, t2])
+        return t1, t2
+
+    def requires(chunks, same_content):
+        return True
+
+    def ensures(result, chunks, same_content):
+        import numpy as np
+        t1, t2 = result
+        return {"every-target-written": _same(t1, np.arange(10.0)) and _same(t2, np.arange(10.0))}
+
+    def domain(tier, rng):
+        for ch in [(5, 5), (10,), (3, 3, 4)]:
+            for same in (True, False):
+                yield {"chunks": ch, "same_content": same}
+
+
+@contract("dask_array/_collection.py::Array.__setitem__", spec="no-data-access", props=["C29"])
+class constructors_touch_no_data:
+    """building expressions (incl. in-place assignment of lazy values, where, map_blocks with a user function, stacking,
+    reshaping) and reading their metadata never reads a non-empty selection from a non-NumPy source and never calls a
+    user block function on a non-empty block; data is read only when the graph is executed"""
+    bounded_only = True
+    params = {"op": "const", "dtype": "const", "vdtype": "const"}
+    scope = "18 constructor kinds over recording sources (int and float dtypes for targets and values); metadata accessors afterwards"
+
+    def real():
+        return lambda: None
+
+    def call(fn, op, dtype, vdtype):
+        import numpy as np
+        import dask_array as da
+        calls = []
+
+        def user(block, *a, **k):
+            if np.size(block) > 0:
+                calls.append(np.shape(block))
+            return block
+
+        s1 = cat.RecordingSource(np.arange(12).astype(dtype))
+        s2 = cat.RecordingSource((np.arange(12) * 1.5).astype(vdtype))
+        x = da.from_array(s1, chunks=4)
+        v = da.from_array(s2, chunks=4)
+        if op == "setitem-lazy":
+            x[2:6] = v[2:6]
+            r = x
+        elif op == "setitem-lazy-full":
+            x[:] = v
+            r = x
+        elif op == "setitem-scalar":
+            x[3] = 1
+            r = x
+        elif op == "setitem-mask":
+            x[v > 3] = 0
+            r = x
+        elif op == "where":
+            r = da.where(v > 3, x, v)
+        elif op == "map_blocks":
+            r = x.map_blocks(user, dtype=x.dtype)
+        elif op == "map_blocks-info":
+            r = da.map_blocks(lambda b, block_info=None: user(b), x, dtype=x.dtype)
+        elif op == "map_overlap":
+            r = x.map_overlap(user, depth=1, boundary="reflect", dtype=x.dtype)
+        elif op == "concat-stack":
+            r = da.stack([da.concatenate([x, x]), da.concatenate([x, x])])
+        elif op == "reshape-T":
+            r = x.reshape(3, 4).T
+        elif op == "reduce":
+            r = (x * v).sum()
+        elif op == "astype-clip":
+            r = x.astype("f4").clip(1, 5)
+        elif op == "rechunk-slice":
+            r = x.rechunk(5)[1:9][::2]
+        elif op == "take":
+            r = x[[5, 1, 7]]
+        elif op == "mask-select":
+            r = x[v > 3]
+        elif op == "blockwise-apply":
+            r = da.blockwise(user, "i", x, "i", dtype=x.dtype)
+        elif op == "cumsum":
+            r = da.cumsum(x, axis=0)
+        elif op == "swv":
+            r = da.sliding_window_view(x, 3).sum(-1)
+        else:
+            raise ValueError(op)
+        r.shape, r.chunks, r.dtype, r.name, r.numblocks
+        r.__dask_keys__()
+        repr(r)
+        for n in cat.walk(r.expr):
+            getattr(n, "transfer_bytes", None)
+        r.optimize().chunks
+        before = (list(s1.nonempty_requests()), list(s2.nonempty_requests()), list(calls))
+        r.compute()
+        after_reads = len(s1.requests) + len(s2.requests)
+        return before, after_reads
+
+    def requires(op, dtype, vdtype):
+        return True
+
+    def ensures(result, op, dtype, vdtype):
+        (r1, r2, calls), after = result
+        return {"no-source-read-before-execution": r1 == [] and r2 == [],
+                "no-user-function-call-on-nonempty-block-before-execution": calls == [],
+                "data-is-read-at-execution": after > 0}
+
+    def domain(tier, rng):
+        ops = ["setitem-lazy", "setitem-lazy-full", "setitem-scalar", "setitem-mask", "where", "map_blocks", "map_blocks-info",
+               "map_overlap", "concat-stack", "reshape-T", "reduce", "astype-clip", "rechunk-slice", "take", "mask-select",
+               "blockwise-apply", "cumsum", "swv"]
+        for op in ops:
+            for dt in ("i8", "f8"):
+                for vdt in ("i8", "f8"):
+                    yield {"op": op, "dtype": dt, "vdtype": vdt}
